@@ -14,7 +14,15 @@ type Opts struct {
 	Big       bool // include the 65,535-element / 65,535-byte members (single deviations only)
 	Over      bool // include members that overflow their prefix (C17/C18), implies !Canonical
 	NilParts  bool // include nil nested pointers and nil bodies (C17)
+	// Sweep mode (either > 0): the only deviations are COMPLETE size sweeps — every prefixed-text length 0..SweepText
+	// (also as the single element of a text list) and every list length 0..SweepList, each a single deviation from the
+	// base.  Closes the gaps between the size windows of the Big alphabets (DESIGN 7).
+	Combos    bool // text lists: every pair and triple of element lengths from a size-class alphabet
+	SweepText int
+	SweepList int
 }
+
+func (o Opts) sweep() bool { return o.SweepText > 0 || o.SweepList > 0 }
 
 type alt struct {
 	desc  string
@@ -262,6 +270,9 @@ func collect(v *rm.Value, path string, parent int, o Opts, ps *[]position, leaf 
 			keyNode := v.Fields[keyIdx]
 			var alts []alt
 			for _, k := range tab.Order {
+				if o.sweep() {
+					break // sweeps keep the base key; every body type is swept as a type of its own
+				}
 				bt := t.Proto.Type(tab.Entries[k])
 				for _, bb := range []string{"Z", "D"} {
 					var body *rm.Value
@@ -306,6 +317,17 @@ func collect(v *rm.Value, path string, parent int, o Opts, ps *[]position, leaf 
 		default:
 			*leaf++
 			var alts []alt
+			if o.sweep() {
+				if f.Kind == "lentext" {
+					lf := *leaf
+					for l := 0; l <= o.SweepText && uint64(l) <= rm.MaxOf(f.Prefix); l++ {
+						l := l
+						alts = append(alts, alt{desc: fmt.Sprintf("len %d", l), heavy: true, apply: func() func() { return replace(node, rm.Text(rolling(lf, l)))() }})
+					}
+				}
+				*ps = append(*ps, position{path: p, parent: parent, alts: alts})
+				continue
+			}
 			for _, m := range leafAlphabet(f, o, *leaf) {
 				if rm.Equal(m.v, node) {
 					continue
@@ -581,6 +603,23 @@ func listAlts(t *rm.Type, f *rm.Field, node *rm.Value, o Opts, leaf int) []alt {
 		}
 		return l
 	}
+	if o.sweep() {
+		var alts []alt
+		for n := 0; n <= o.SweepList && uint64(n) <= max; n++ {
+			n := n
+			alts = append(alts, alt{desc: fmt.Sprintf("n=%d", n), heavy: true, apply: func() func() { return replace(node, mk(n))() }})
+		}
+		if f.Elem.Kind == "lentext" {
+			for l := 0; l <= o.SweepText && uint64(l) <= rm.MaxOf(f.Elem.Prefix); l++ {
+				l := l
+				alts = append(alts, alt{desc: fmt.Sprintf("[len %d]", l), heavy: true, apply: func() func() { return replace(node, rm.List(rm.Text(rolling(leaf, l))))() }})
+				alts = append(alts, alt{desc: fmt.Sprintf("[x, len %d, y]", l), heavy: true, apply: func() func() {
+					return replace(node, rm.List(rm.Text([]byte("x")), rm.Text(rolling(leaf+1, l)), rm.Text([]byte("y"))))()
+				}})
+			}
+		}
+		return alts
+	}
 	ms = append(ms, member{desc: "nil", v: rm.NilList()})
 	ms = append(ms, member{desc: "empty", v: &rm.Value{K: rm.VList, Elems: []*rm.Value{}}})
 	for _, n := range []int{1, 2, 3} {
@@ -619,6 +658,28 @@ func listAlts(t *rm.Type, f *rm.Field, node *rm.Value, o Opts, leaf int) []alt {
 	}
 	if o.Over && max == 65535 {
 		ms = append(ms, member{desc: "n=65536", v: mk(65536), heavy: true})
+	}
+	// lists of prefixed texts: EVERY pair and triple of element lengths from a size-class alphabet (state carried from
+	// one element to the next — a scratch area sized by an earlier element — shows only for particular length orders)
+	if o.Combos && f.Elem.Kind == "lentext" {
+		var cls []int
+		for _, c := range []int{0, 1, 2, 63, 64, 65, 70, 100, 127, 128, 129, 255, 256, 257, 300, 1000, 4097} {
+			if uint64(c) <= rm.MaxOf(f.Elem.Prefix) {
+				cls = append(cls, c)
+			}
+		}
+		tx := func(j, n int) *rm.Value { return rm.Text(rolling(leaf+j*11, n)) }
+		for _, a := range cls {
+			for _, b := range cls {
+				ms = append(ms, member{desc: fmt.Sprintf("[len %d, len %d]", a, b), v: rm.List(tx(0, a), tx(1, b)), heavy: true})
+				for _, c := range cls {
+					if a == b && b == c {
+						continue
+					}
+					ms = append(ms, member{desc: fmt.Sprintf("[len %d, len %d, len %d]", a, b, c), v: rm.List(tx(0, a), tx(1, b), tx(2, c)), heavy: true})
+				}
+			}
+		}
 	}
 	// every element-alphabet member at length 1
 	if f.Elem.Kind != "struct" {
